@@ -348,12 +348,99 @@ done:
 	vbuf_free(&comp); vbuf_free(&comp2); vbuf_free(&dec); vbuf_free(&c.in); vcfg_free(&c.cfg);
 }
 
+// C06 (encoder half): same data + same options => identical bytes, whatever
+// the slicing, thread count, timeout, or textual-vs-struct filter chain.
+static void c06enc_case(uint64_t idx)
+{
+	vrng r; vrng_init(&r, A.seed, 0xC06E, idx, 0);
+	rt_case c; gen_case(&c, &r, idx);
+	c.bias = 0;
+	hx_case_begin(idx);
+	switch (c.ep) {
+	case EP_MICROLZMA: c.ep = EP_ALONE; break;
+	case EP_EASY_BUF: c.ep = EP_EASY; break;
+	case EP_STREAM_BUF: c.ep = vrng_chance(&r, 1, 2) ? EP_STREAM : EP_STREAM_MT; break;
+	case EP_BLOCK_BUF: c.ep = EP_BLOCK; break;
+	case EP_RAW_BUF: c.ep = EP_RAW; break;
+	default: break;
+	}
+	if (c.ep == EP_STREAM_MT && c.cfg.from_preset && c.cfg.nfilters != 1) c.cfg.from_preset = false;
+	if (c.ep == EP_STREAM_MT && c.block_size == 0) c.block_size = 4096u << vrng_below(&r, 6);
+	char err[400] = ""; char key[200];
+	vbuf canon = {0}, other = {0}; size_t consumed = 0, consumed2 = 0;
+	slice_plan whole = { .mode = SL_WHOLE, .final_action = LZMA_FINISH };
+	c.enc_plan = whole;
+	uint32_t thr0 = c.threads, to0 = c.timeout;
+	hx_sample("c06enc ep=%s cfg=%s kind=%s size=%zu threads=%u bs=%" PRIu64, ep_names[c.ep], c.cfg.desc, gd_names[c.kind], c.in.n, c.threads, c.block_size);
+	bool ok = do_encode(&c, idx, &canon, &consumed, err, sizeof(err));
+	hx_eval();
+	if (!ok) { snprintf(key, sizeof(key), "encode-failed|%s", ep_names[c.ep]); hx_violation("C06", key, idx, "%s; cfg=%s size=%zu", err, c.cfg.desc, c.in.n); goto done; }
+	unsigned variants = 0;
+	for (unsigned v = 0; v < 6; ++v) {
+		slice_plan_random(&r, &c.enc_plan);
+		if (v == 0) c.enc_plan.mode = c.in.n <= 100000 ? SL_ONEBYTE : SL_RANDOM;
+		if (c.in.n > 200000 && c.enc_plan.mode != SL_WHOLE) { c.enc_plan.mode = SL_RANDOM; if (c.enc_plan.max_in < 100) c.enc_plan.max_in = 5000; if (c.enc_plan.max_out < 100) c.enc_plan.max_out = 5000; }
+		if (c.ep == EP_STREAM_MT) {
+			c.threads = 1 + vrng_below(&r, 8);
+			static const uint32_t tos[] = { 0, 1, 50 };
+			c.timeout = tos[vrng_below(&r, 3)];
+		}
+		ok = do_encode(&c, idx, &other, &consumed2, err, sizeof(err));
+		hx_eval(); ++variants;
+		if (!ok) { snprintf(key, sizeof(key), "encode-failed|%s", ep_names[c.ep]); hx_violation("C06", key, idx, "%s under slicing %s threads=%u timeout=%u; cfg=%s size=%zu", err, slice_mode_name(c.enc_plan.mode), c.threads, c.timeout, c.cfg.desc, c.in.n); goto done; }
+		if (other.n != canon.n || (canon.n && memcmp(other.p, canon.p, canon.n))) {
+			size_t at = 0; while (at < other.n && at < canon.n && other.p[at] == canon.p[at]) ++at;
+			snprintf(key, sizeof(key), "encoder-nondeterministic|%s|%s", ep_names[c.ep], (c.ep == EP_STREAM_MT && (c.threads != thr0 || c.timeout != to0)) ? "threads-or-timeout" : "slicing");
+			hx_violation("C06", key, idx, "output differs from canonical at byte %zu (%zu vs %zu bytes): slicing %s/%zu/%zu threads=%u (canonical %u) timeout=%u (canonical %u); cfg=%s size=%zu bs=%" PRIu64,
+					at, other.n, canon.n, slice_mode_name(c.enc_plan.mode), c.enc_plan.max_in, c.enc_plan.max_out, c.threads, thr0, c.timeout, to0, c.cfg.desc, c.in.n, c.block_size);
+			goto done;
+		}
+	}
+	// textual form of the chain (only where a filter array is used and no preset dictionary)
+	if ((c.ep == EP_STREAM || c.ep == EP_RAW || c.ep == EP_BLOCK || c.ep == EP_STREAM_MT) && c.cfg.lzma.preset_dict == NULL && !c.lzma1ext
+			&& !(c.ep == EP_STREAM_MT && c.cfg.from_preset)) {
+		char *str = NULL;
+		lzma_ret sr = lzma_str_from_filters(&str, c.cfg.filters, LZMA_STR_ENCODER, NULL);
+		if (sr == LZMA_OK && str) {
+			lzma_filter f2[LZMA_FILTERS_MAX + 1];
+			int epos = 0;
+			const char *e = lzma_str_to_filters(str, &epos, f2, LZMA_STR_ALL_FILTERS, NULL);
+			if (e != NULL) {
+				hx_violation("C06", "str-form-rejected", idx, "lzma_str_from_filters gave '%s' which lzma_str_to_filters rejects at %d: %s; cfg=%s", str, epos, e, c.cfg.desc);
+			} else {
+				lzma_filter saved[LZMA_FILTERS_MAX + 1];
+				memcpy(saved, c.cfg.filters, sizeof(saved));
+				memcpy(c.cfg.filters, f2, sizeof(saved));
+				c.enc_plan = whole; c.threads = thr0; c.timeout = to0;
+				ok = do_encode(&c, idx, &other, &consumed2, err, sizeof(err));
+				memcpy(c.cfg.filters, saved, sizeof(saved));
+				hx_eval(); hx_count("string_form_variants", 1);
+				if (!ok) hx_violation("C06", "encode-failed|string-form", idx, "%s; str='%s'", err, str);
+				else if (other.n != canon.n || (canon.n && memcmp(other.p, canon.p, canon.n)))
+					hx_violation("C06", "encoder-nondeterministic|string-form", idx, "chain given as text '%s' produces different bytes than the struct form (%zu vs %zu); cfg=%s", str, other.n, canon.n, c.cfg.desc);
+				lzma_filters_free(f2, NULL);
+			}
+			free(str);
+		} else if (sr != LZMA_OK) {
+			hx_violation("C06", "str-from-filters-failed", idx, "lzma_str_from_filters returned %s for an accepted chain; cfg=%s", lzma_ret_name(sr), c.cfg.desc);
+		}
+	}
+	{
+		char nm[64]; snprintf(nm, sizeof(nm), "enc_%s", ep_names[c.ep]); hx_count(nm, 1);
+		hx_count("enc_variants", variants);
+		uint64_t h = vhash(c.in.p, c.in.n, VHASH_INIT); h = vhash(c.cfg.desc, strlen(c.cfg.desc), h); h = vhash(&c.ep, sizeof(c.ep), h);
+		hx_distinct(h, c.in.n >= 2);
+	}
+done:
+	vbuf_free(&canon); vbuf_free(&other); vbuf_free(&c.in); vcfg_free(&c.cfg);
+}
+
 int main(int argc, char **argv)
 {
 	hx_parse(argc, argv, &A);
 	if (A.prop[0]) PROP = A.prop;
 	uint64_t idx = UINT64_MAX;
-	while (hx_next_case(&A, &idx)) run_case(idx);
+	while (hx_next_case(&A, &idx)) { if (!strcmp(A.mode, "c06enc")) c06enc_case(idx); else run_case(idx); }
 	hx_finish();
 	return 0;
 }
